@@ -2,11 +2,14 @@
    their id."  `go_decode_* b` is what the real decoders of /repo return on the byte string b (model: Codec/Model.v,
    tied to /repo by the correspondence run); its result is the *parse tree*: the Go object plus, at each rlp:"nil"
    pointer position, which of the two accepted empty forms was read.  `go_reencode_*` is Go's re-encoding.
-   `wfp c x` is the well-formedness predicate of codec c (field ranges: uintN below 2^N, arrays of their size,
-   at most 2500 clauses / 2 unused reserved values, tail-trimmed reserved / extension, every length below 2^64). *)
+   `wfp c x` is the well-formedness predicate of codec c.  For the primitive codecs it is a range predicate (c_uint_wf /
+   c_uint_wf_inv: wfp (c_uint k) n <-> n < 256^k; arrays have their size; every length below 2^64); for a codec built with
+   `cpmap f g` it is SEMANTIC: `wfp c (g y) /\ f (g y) = Some y` ("y is what the validating function f makes of its own
+   wire form"), which for reserved / extension unfolds to "at most 2 unused values, tail-trimmed" and for the record
+   codecs to "the fields unused by this tx type are 0".  Every object a decoder returns satisfies it (soundness). *)
 From Coq Require Import List NArith Bool.
 From Verif Require Import Codec.Model Codec.ProofsRLP Codec.ProofsComb Codec.ProofsObjects Codec.ProofsTop
-  Codec.ProofsItem Codec.ProofsRaw Codec.ProofsSign Codec.ProofsNorm Codec.ProofsAcc.
+  Codec.ProofsItem Codec.ProofsRaw Codec.ProofsSign Codec.ProofsNorm Codec.ProofsAcc Codec.ProofsBind Codec.ProofsRoot.
 Import ListNotations.
 Open Scope N_scope.
 
@@ -28,13 +31,17 @@ Theorem tx_decode_encode t : wfp c_tx t -> go_decode_tx (enc c_tx t) = Some t.
 Proof. exact (tx_roundtrip_l t). Qed.
 Theorem tx_decode_is_encoding b t : go_decode_tx b = Some t -> b = enc c_tx t /\ wfp c_tx t.
 Proof. exact (tx_decode_sound_l b t). Qed.
-(* the full statement, refuted on the tree as it is (F2: empty list in an rlp:"nil" position) *)
+(* the full statement, refuted on the tree as it is (F2: empty list in an rlp:"nil" position); one witness per nil position *)
 Definition tx_decode_canonical_statement : Prop :=
   forall b t, go_decode_tx b = Some t -> go_reencode_tx t = b.
-Theorem tx_nil_ptr_refuted : exists b t, go_decode_tx b = Some t /\ go_reencode_tx t <> b.
-Proof. exact tx_nil_ptr_refuted_l. Qed.
-Theorem tx_clause_nil_ptr_refuted : exists b t, go_decode_tx b = Some t /\ go_reencode_tx t <> b.
-Proof. exact tx_clause_nil_ptr_refuted_l. Qed.
+Theorem tx_decode_canonical_statement_refuted : ~ tx_decode_canonical_statement.
+Proof. exact tx_decode_canonical_statement_refuted_l. Qed.
+Theorem tx_nil_ptr_refuted : exists t, go_decode_tx f2_depends_witness = Some t /\ is_nil_list (t_depends t) = true /\
+  existsb (fun c => is_nil_list (c_to c)) (t_clauses t) = false /\ go_reencode_tx t <> f2_depends_witness.
+Proof. exact tx_depends_nil_refuted_l. Qed.
+Theorem tx_clause_nil_ptr_refuted : exists t, go_decode_tx f2_clause_witness = Some t /\ is_nil_list (t_depends t) = false /\
+  existsb (fun c => is_nil_list (c_to c)) (t_clauses t) = true /\ go_reencode_tx t <> f2_clause_witness.
+Proof. exact tx_clause_nil_refuted_l. Qed.
 Theorem tx_decode_canonical_except b t :
   go_decode_tx b = Some t -> tx_has_nil_list t = false ->
   go_reencode_tx t = b /\ lenN (tx_marshal t) = lenN (go_marshal_tx t).
@@ -71,6 +78,10 @@ Theorem receipt_roundtrip r : wfp c_receipt r -> go_decode_receipt (go_reencode_
 Proof. exact (receipt_roundtrip_l r). Qed.
 Theorem receipt_decode_canonical b r : go_decode_receipt b = Some r -> go_reencode_receipt r = b /\ wfp c_receipt r.
 Proof. exact (receipt_decode_canonical_l b r). Qed.
+Theorem receipt_unmarshal_canonical b r : receipt_unmarshal b = Some r -> b = receipt_marshal r /\ wfp (c_receipt_body (rc_dyn r)) r.
+Proof. exact (receipt_unmarshal_sound_l b r). Qed.
+Theorem receipt_unmarshal_roundtrip r : wfp (c_receipt_body (rc_dyn r)) r -> receipt_unmarshal (receipt_marshal r) = Some r.
+Proof. exact (receipt_unmarshal_complete_l r). Qed.
 Theorem block_roundtrip b : wfp c_block b -> go_decode_block (enc c_block b) = Some b.
 Proof. exact (block_roundtrip_l b). Qed.
 Theorem block_decode_canonical_except bs b :
@@ -121,8 +132,63 @@ Proof.
     exact (proj2 c_clauses_ok l r (conj W Hl)).
 Qed.
 
-(* 4. id binding: the preimage of the signing hash is injective in every signed field (hash opaque:
-      equal preimages => equal fields); the hash preimage additionally fixes the signature *)
+(* 4. id / hash / root binding, stated on the byte strings the Go code feeds to Blake2b:
+        go_signing_tx t            = preimage of Transaction.SigningHash()      (type byte || rlp(signingFields()) of the Go object)
+        go_marshal_tx t            = preimage of Transaction.Hash()             (MarshalBinary)
+        header_signing_bytes_any h = preimage of Header.SigningHash()           (9 fields, 10 with a base fee)
+      (the correspondence run hashes exactly these strings with the real Blake2b and compares with the real accessors).
+      signed_part t = the Go object norm_tx t without its signature; header_signed_view h = all fields but the signature,
+      the extension only when it carries a base fee. *)
+Theorem go_signing_injective t1 t2 : wfp c_tx t1 -> wfp c_tx t2 -> go_signing_tx t1 = go_signing_tx t2 -> signed_part t1 = signed_part t2.
+Proof. exact (go_signing_injective_l t1 t2). Qed.
+Theorem go_marshal_injective t1 t2 : wfp c_tx t1 -> wfp c_tx t2 -> go_marshal_tx t1 = go_marshal_tx t2 -> norm_tx t1 = norm_tx t2.
+Proof. exact (go_marshal_injective_l t1 t2). Qed.
+(* both the 9-field and the 10-field form, and no 9-field preimage equals a 10-field one *)
+Theorem header_signing_any_injective h1 h2 : wfp c_header h1 -> wfp c_header h2 ->
+  header_signing_bytes_any h1 = header_signing_bytes_any h2 -> header_signed_view h1 = header_signed_view h2.
+Proof. exact (header_signing_any_injective_l h1 h2). Qed.
+Theorem header_view_with_base_fee h : wfp c_header h -> x_basefee (h_ext h) <> None -> header_signed_view h = header_sign_tuple h.
+Proof. exact (view_basefee h). Qed.
+
+(* the final corollaries, with Blake2b as an opaque function H and its collision-freeness as the NAMED hypothesis H_inj.
+   Transaction.ID() = H(signingHash ++ origin) only when the signature recovers (origin = Some o; otherwise the zero id, for
+   which nothing is claimed); Header.ID() additionally overwrites the first four bytes of H(signingHash ++ signer) with the
+   block number: header_id_binds is about the hash before that overwrite (the real id needs collision-freeness of the
+   remaining 28 bytes). *)
+Section IdBinding.
+  Variable H : bytes -> bytes.
+  Hypothesis H_inj : forall a b, H a = H b -> a = b.
+  Theorem tx_signing_fields_bind_signing_hash t1 t2 : wfp c_tx t1 -> wfp c_tx t2 ->
+    signed_part t1 <> signed_part t2 -> go_tx_signing_hash H t1 <> go_tx_signing_hash H t2.
+  Proof. exact (tx_signing_hash_binds_l H H_inj t1 t2). Qed.
+  Theorem tx_signed_field_change_changes_id t1 t2 o1 o2 : wfp c_tx t1 -> wfp c_tx t2 -> length o1 = length o2 ->
+    signed_part t1 <> signed_part t2 -> go_tx_id H t1 (Some o1) <> go_tx_id H t2 (Some o2).
+  Proof. exact (tx_id_binds_l H H_inj t1 t2 o1 o2). Qed.
+  Theorem tx_hash_commits_to_signature_and_fields t1 t2 : wfp c_tx t1 -> wfp c_tx t2 ->
+    norm_tx t1 <> norm_tx t2 -> go_tx_hash H t1 <> go_tx_hash H t2.
+  Proof. exact (tx_hash_binds_l H H_inj t1 t2). Qed.
+  Theorem header_field_change_changes_signing_hash h1 h2 : wfp c_header h1 -> wfp c_header h2 ->
+    header_signed_view h1 <> header_signed_view h2 -> go_header_signing_hash H h1 <> go_header_signing_hash H h2.
+  Proof. exact (header_signing_hash_binds_l H H_inj h1 h2). Qed.
+  Theorem header_field_change_changes_id_hash h1 h2 s1 s2 : wfp c_header h1 -> wfp c_header h2 -> length s1 = length s2 ->
+    header_signed_view h1 <> header_signed_view h2 -> go_header_id_hash H h1 s1 <> go_header_id_hash H h2 s2.
+  Proof. exact (header_id_binds_l H H_inj h1 h2 s1 s2). Qed.
+End IdBinding.
+
+(* roots: the tree trie.DeriveRoot builds determines the ordered list (trie half: Trie/DeriveRoot.v derive_root_injective_bytes,
+   i.e. C06's canonical-trie theorem; codec half: the keys rlp(i) are injective byte strings, the values determine the items).
+   The root is the hash of that tree; "equal roots => equal trees" is the collision-freeness of the node hash (C06). *)
+Theorem derive_tree_injective vals1 vals2 : lenN vals1 < u64max1 -> lenN vals2 < u64max1 ->
+  go_derive_tree vals1 = go_derive_tree vals2 -> vals1 = vals2.
+Proof. exact (derive_tree_injective_l vals1 vals2). Qed.
+Theorem txs_root_commits_to_ordered_txs l1 l2 : Forall (wfp c_tx) l1 -> Forall (wfp c_tx) l2 -> lenN l1 < u64max1 -> lenN l2 < u64max1 ->
+  go_derive_tree (map go_marshal_tx l1) = go_derive_tree (map go_marshal_tx l2) -> map norm_tx l1 = map norm_tx l2.
+Proof. exact (txs_root_tree_binds_l l1 l2). Qed.
+Theorem receipts_root_commits_to_ordered_receipts l1 l2 : Forall wf_rbin l1 -> Forall wf_rbin l2 -> lenN l1 < u64max1 -> lenN l2 < u64max1 ->
+  go_derive_tree (map go_marshal_receipt l1) = go_derive_tree (map go_marshal_receipt l2) -> l1 = l2.
+Proof. exact (receipts_root_tree_binds_l l1 l2). Qed.
+
+(* the same injectivity on the parse trees (wire forms), kept as the lemmas the above is built from *)
 Theorem tx_signing_fields_injective t1 t2 :
   (if t_dyn t1 then wfp (cwrap dyn_sign_fields) (dyn_sign_tuple t1) else wfp (cwrap legacy_sign_fields) (legacy_sign_tuple t1)) ->
   (if t_dyn t2 then wfp (cwrap dyn_sign_fields) (dyn_sign_tuple t2) else wfp (cwrap legacy_sign_fields) (legacy_sign_tuple t2)) ->
@@ -178,8 +244,34 @@ Qed.
 Example ex_item_wf : wf_item (Lst [Str [1]; Lst [Str (repeat 7 60); Lst []]; Str []]).
 Proof. cbn. unfold two64. repeat split; exact eq_refl. Qed.
 
-Example ex_intrinsic : intrinsic_gas (t_clauses ex_tx_legacy) = Some 69340 /\ lenN (t_clauses ex_tx_legacy) <= max_clauses.
-Proof. split; vm_compute; [reflexivity|discriminate]. Qed.
+Example ex_intrinsic : intrinsic_gas (t_clauses ex_tx_legacy) = Some 69340 /\ lenN (t_clauses ex_tx_legacy) <= max_clauses /\
+  lenN (concat (map c_data (t_clauses ex_tx_legacy))) < 2 ^ 56.
+Proof. split; [|split]; vm_compute; [reflexivity|discriminate|reflexivity]. Qed.
+Definition ex_receipt :=
+  mkReceipt true 21000 (repeat 8 20) 210000000000000000 63000000000000000 false
+            [mkOutput [mkEvent (repeat 1 20) [repeat 2 32; repeat 3 32] [9; 9]] [mkTransfer (repeat 4 20) (repeat 5 20) 1000]; mkOutput [] []].
+Example ex_receipt_wf : wfp c_receipt ex_receipt /\ wf_rbin ex_receipt.
+Proof.
+  split.
+  - apply (receipt_decode_canonical (enc c_receipt ex_receipt)). vm_compute. reflexivity.
+  - exact (proj2 (receipt_unmarshal_canonical (receipt_marshal ex_receipt) ex_receipt ltac:(vm_compute; reflexivity))).
+Qed.
+(* a block-level F2 witness: [header, [tx with 0xc0 as DependsOn]] decodes and re-encodes differently *)
+Example ex_block_f2 : exists bs b, go_decode_block bs = Some b /\ block_has_nil_list b = true /\ go_reencode_block b <> bs.
+Proof.
+  exists (enc c_block (mkBlock ex_header [mkTx false 0 0 0 [] 0 0 0 0 NilList 0 (mkRes 0 []) []])). eexists.
+  split; [vm_compute; reflexivity|]. split; [reflexivity|]. vm_compute. discriminate.
+Qed.
+(* the id-binding hypotheses are satisfiable: an injective toy hash and two transactions differing in one signed field *)
+Example ex_id_binding :
+  let H := fun b : bytes => b in
+  (forall a b, H a = H b -> a = b) /\ wfp c_tx ex_tx_legacy /\ wfp c_tx ex_tx_dyn /\ signed_part ex_tx_legacy <> signed_part ex_tx_dyn /\
+  go_tx_id H ex_tx_legacy (Some (repeat 1 20)) <> go_tx_id H ex_tx_dyn (Some (repeat 2 20)).
+Proof.
+  cbv zeta. assert (Hd : signed_part ex_tx_legacy <> signed_part ex_tx_dyn) by (vm_compute; discriminate).
+  split; [auto|]. split; [exact (proj1 ex_tx_legacy_wf)|]. split; [exact (proj1 ex_tx_dyn_wf)|]. split; [exact Hd|].
+  apply tx_signed_field_change_changes_id; [auto|exact (proj1 ex_tx_legacy_wf)|exact (proj1 ex_tx_dyn_wf)|reflexivity|exact Hd].
+Qed.
 Example ex_wf_bin : Forall wf_bin [ex_tx_legacy; ex_tx_dyn].
 Proof.
   apply Forall_cons; [|apply Forall_cons; [|apply Forall_nil]].
@@ -188,6 +280,22 @@ Proof.
 Qed.
 
 Print Assumptions rlp_head_canonical.
+Print Assumptions block_exception_is_lifted_tx_class.
+Print Assumptions tx_decode_canonical_statement_refuted.
+Print Assumptions receipt_unmarshal_canonical.
+Print Assumptions receipt_unmarshal_roundtrip.
+Print Assumptions go_signing_injective.
+Print Assumptions go_marshal_injective.
+Print Assumptions header_signing_any_injective.
+Print Assumptions header_view_with_base_fee.
+Print Assumptions tx_signing_fields_bind_signing_hash.
+Print Assumptions tx_signed_field_change_changes_id.
+Print Assumptions tx_hash_commits_to_signature_and_fields.
+Print Assumptions header_field_change_changes_signing_hash.
+Print Assumptions header_field_change_changes_id_hash.
+Print Assumptions derive_tree_injective.
+Print Assumptions txs_root_commits_to_ordered_txs.
+Print Assumptions receipts_root_commits_to_ordered_receipts.
 Print Assumptions tx_decode_canonical_iff.
 Print Assumptions tx_unmarshal_canonical_iff.
 Print Assumptions tx_reencode_length.
